@@ -79,7 +79,7 @@ ASSUMPTIONS = [
 HEALTH = {"value-checked": 0.45, "refusal-demanded": 0.03, "var:absent": 0.03,
           "has:power-var-exp": 0.03, "permission-used": 0.04, "cse-shared": 0.02,
           "var:Subscript": 0.03, "has:If": 0.02, "mode:alg": 0.15}
-TIMEOUT_IS_FAIL = True
+TIMEOUT_IS_FAIL = False   # an overloaded machine must not look like a defect
 CASE_TIMEOUT_S = 30
 
 REL, ABS = 1e-9, 1e-12
@@ -360,7 +360,8 @@ def _judge_point(e, dexpr, var, pt, strict=False):
     if got_hp[0] == "giveup":
         return ("skip", "adjudication:decimal-domain-gives-up")
     if got_hp[0] == "exc":
-        exc = got_hp[1]
+        # name the exception a user sees (float evaluation) when there is one
+        exc = got[1] if got[0] == "exc" else got_hp[1]
         return ("eval-error:" + type(exc).__name__,
                 f"evaluating the derivative raised {type(exc).__name__}: {exc}; "
                 f"the input is differentiable there, dual-number derivative "
